@@ -1,6 +1,7 @@
 package main
 
 import (
+	_ "embed"
 	"fmt"
 	"go/ast"
 	"go/token"
@@ -380,5 +381,89 @@ func (P *Program) FieldOf(rel, typ, field string) *types.Var {
 			return st.Field(i)
 		}
 	}
-	return nil
+	// a renamed field: the baseline knows the type this field had; if exactly one field of the struct has that type
+	// and a name the baseline does not know for this struct, it answers to the old name (the rules are applied to it
+	// unchanged, so nothing is hidden if it is something else)
+	want, known := baselineFieldType(rel, typ, field)
+	if !known {
+		return nil
+	}
+	q := func(*types.Package) string { return "" }
+	var cand *types.Var
+	for i := 0; i < st.NumFields(); i++ {
+		f := st.Field(i)
+		if _, isBase := baselineFieldType(rel, typ, f.Name()); isBase {
+			continue
+		}
+		if types.TypeString(f.Type(), q) == want {
+			if cand != nil {
+				return nil // ambiguous
+			}
+			cand = f
+		}
+	}
+	if cand != nil {
+		note := rel + "." + typ + "." + cand.Name() + " -> " + field + " (field)"
+		dup := false
+		for _, r := range P.Renamed {
+			if r == note {
+				dup = true
+			}
+		}
+		if !dup {
+			P.Renamed = append(P.Renamed, note)
+		}
+	}
+	return cand
+}
+
+//go:embed baseline_fields.txt
+var baselineFieldsTxt string
+
+var baselineFieldsMap map[string]string
+
+// baselineFieldType: the type (as a package-less string) that field had in the tree the rules were written against.
+func baselineFieldType(rel, typ, field string) (string, bool) {
+	if baselineFieldsMap == nil {
+		baselineFieldsMap = map[string]string{}
+		for _, l := range strings.Split(baselineFieldsTxt, "\n") {
+			parts := strings.SplitN(strings.TrimSpace(l), "|", 4)
+			if len(parts) == 4 {
+				baselineFieldsMap[parts[0]+"|"+parts[1]+"|"+parts[2]] = parts[3]
+			}
+		}
+	}
+	t, ok := baselineFieldsMap[rel+"|"+typ+"|"+field]
+	return t, ok
+}
+
+// ListFields prints rel|Type|field|type for every struct type of the tree (to regenerate baseline_fields.txt).
+func (P *Program) ListFields() []string {
+	var out []string
+	q := func(*types.Package) string { return "" }
+	for _, p := range P.Pkgs {
+		if strings.HasSuffix(p.ID, ".test") || strings.Contains(p.ID, "[") {
+			continue
+		}
+		rel := ""
+		if p.PkgPath != P.ModPath {
+			rel = strings.TrimPrefix(p.PkgPath, P.ModPath+"/")
+		}
+		sc := p.Types.Scope()
+		for _, name := range sc.Names() {
+			tn, ok := sc.Lookup(name).(*types.TypeName)
+			if !ok {
+				continue
+			}
+			st, ok := tn.Type().Underlying().(*types.Struct)
+			if !ok {
+				continue
+			}
+			for i := 0; i < st.NumFields(); i++ {
+				out = append(out, rel+"|"+name+"|"+st.Field(i).Name()+"|"+types.TypeString(st.Field(i).Type(), q))
+			}
+		}
+	}
+	sort.Strings(out)
+	return out
 }
